@@ -765,12 +765,15 @@ def install_adb():
   _patch(timeouts, 'time', vt)
 
 
+TRACE_OPCODES = False
+
+
 def _line_tracer(codes):
   """sys.settrace function: every source line of the designated functions becomes a scheduling point, so that two
   threads can be interleaved inside code that performs no synchronisation action at all (plain attribute reads and
   writes, set / dict updates) - CPython may switch threads between any two bytecodes"""
   def local(frame, event, arg):
-    if event == 'line':
+    if event == 'opcode' or (event == 'line' and not frame.f_trace_opcodes):
       s = SCHED
       if s is not None and s.failed is None and s.me() is not None:
         s.yield_point(('line', frame.f_code.co_name, frame.f_lineno))
@@ -778,6 +781,14 @@ def _line_tracer(codes):
 
   def tracer(frame, event, arg):
     if event == 'call' and frame.f_code in codes:
+      # Granularity = source lines, the granularity the properties quantify over ("line-level interleavings").
+      # Bytecode granularity (trace_opcodes=True) is finer than the points at which CPython 3.12 actually switches
+      # threads (eval-breaker checks at calls and backward jumps): with it the unchanged tree shows lost updates in
+      # PhaseState._notify vs as_base_types (LOAD_ATTR of the pending set / the set.add call split by a swap of the
+      # set) that the interpreter cannot produce. It is therefore used only where the unchanged code is protected by
+      # a lock (logs.initialize_record_handler / remove_record_handler), where finer can only mean stronger.
+      if TRACE_OPCODES:
+        frame.f_trace_opcodes = True
       return local
     return None
   return tracer
@@ -792,7 +803,8 @@ def codes_of(*funcs):
   return out
 
 
-def run(choose, body, max_steps=200000, names=None, watchdog_s=30.0, early_timers=None, trace_lines=None):
+def run(choose, body, max_steps=200000, names=None, watchdog_s=30.0, early_timers=None, trace_lines=None,
+        trace_opcodes=False):
   """Runs body() under a fresh scheduler on the calling thread. Returns (result, sched).
   trace_lines: set of code objects (codes_of(f, g, ...)) whose source lines are scheduling points."""
   global SCHED
@@ -801,7 +813,9 @@ def run(choose, body, max_steps=200000, names=None, watchdog_s=30.0, early_timer
   SCHED = s
   box = {}
   old_trace, old_ttrace = sys.gettrace(), getattr(_th, '_trace_hook', None)
+  global TRACE_OPCODES
   if trace_lines:
+    TRACE_OPCODES = bool(trace_opcodes)
     tr = _line_tracer(set(trace_lines))
     _th.settrace(tr)
     sys.settrace(tr)
@@ -867,14 +881,14 @@ class Explorer(object):
     return None
 
 
-def explore(body, preemption_bound=None, limit=None, max_steps=20000, names=None):
+def explore(body, preemption_bound=None, limit=None, max_steps=20000, names=None, trace_lines=None, trace_opcodes=False):
   """yields (box, sched, choices) for every schedule of body (a callable taking the scheduler)"""
   prefix = []
   n = 0
   while prefix is not None and (limit is None or n < limit):
     ex = Explorer(preemption_bound)
     ex.prefix = prefix
-    box, s = run(ex.choose, body, max_steps=max_steps, names=names)
+    box, s = run(ex.choose, body, max_steps=max_steps, names=names, trace_lines=trace_lines, trace_opcodes=trace_opcodes)
     yield box, s, [r[1] for r in ex.record]
     n += 1
     prefix = ex.next_prefix()
